@@ -1069,6 +1069,10 @@ func (c *glCtx) stmts(list []ast.Stmt, d int) string {
 			c.deferred = append(c.deferred, ex.effect+c.externArgs(call, ex))
 			return c.stmts(rest, d)
 		}
+		if c.ignorable(x.Call) {
+			// a deferred call the translation drops anyway (logging, Close of a request body, …)
+			return c.stmts(rest, d)
+		}
 		c.fail(x, "defer")
 	case *ast.SendStmt:
 		if ctor, ok := c.t.stores[c.p.str(x.Chan)]; ok {
